@@ -8,12 +8,12 @@ from mc.core import viol
 
 ID = 'C09'
 LEVEL = 'model_checking'
-RULE = ('explicit-state BFS over histories of runs on ONE recorder object: 35-letter run alphabet (record ok / raising / interrupted in the '
+RULE = ('explicit-state BFS over histories of runs on ONE recorder object: 36-letter run alphabet (record ok / raising / interrupted in the '
         'operation, in an input body, in an output body / discarded by operation, body, key fault, handler fault / sampled out / forced / '
         'forced-but-ignored / many outputs / skipped class / disabled / failing save / failing extractor / worker-thread interception; '
         'replay ok / with outputs / missing id / escaping missing key / playback function raising or interrupted / operation raising); '
         'state = canon(vars(recorder)) + interception flag on main and pool thread; searched to closure, and additionally EVERY history up '
-        'to the depth bound is followed by each of 5 differential probes compared with the same probe on a fresh recorder. Non-trivial = '
+        'to the depth bound is followed by each of 7 differential probes compared with the same probe on a fresh recorder. Non-trivial = '
         'history with at least one abnormal run.')
 ASSUMPTIONS = ['RNG state abstracted to the scripted draw counter (its value matters to C17 only)',
                'the recorder object and the thread-local flag are the only recorder state (module globals are covered by the probes, not the state hash)']
@@ -48,6 +48,7 @@ RUNS = {
     'rec-addmeta-raises': ('rec-bad-meta', {'steps': BASE}),
     'rec-addmeta-raises-forced': ('rec-bad-meta', {'steps': [{'do': 'force'}] + BASE, 'cls': 'K0'}),
     'rec-unser': ('rec', {'steps': [O1, dict(A, fault='unser')]}),
+    'rec-raise-flex-unserializable': ('rec', {'steps': [O1], 'end': 'raise:FlexBad'}),
     'rec-thread': ('rec', {'steps': [O1, {'do': 'thr', 'steps': [A, O2]}]}),
     'rec-thread-intr': ('rec', {'steps': [O1, {'do': 'thr', 'steps': [dict(A, intr=True)]}, O2]}),
     'play-ok': ('play', {'steps': BASE}),
@@ -60,7 +61,7 @@ RUNS = {
     'play-thread': ('play', {'steps': [O1, {'do': 'thr', 'steps': [A, O2]}]}),
 }
 NORMAL = ('rec-ok', 'play-ok')
-PROBES = ['rec', 'play', 'rate0', 'thread', 'rec-K0-forced']
+PROBES = ['rec', 'play', 'rate0', 'thread', 'rec-K0-forced', 'rec-interrupted', 'rec-raise-flex']
 KCLASSES = {'K0': {'rate': 0.0}, 'K0i': {'rate': 0.0, 'ignore': True}, 'Ks': {'skipped': True}}
 
 
@@ -153,6 +154,12 @@ class World(object):
         if kind == 'rate0':
             r = P.record({'steps': BASE, 'cls': 'K0'}, env=env)
             return ('rate0', [e[0] for e in r.log], type(r.exc).__name__ if r.exc else None)
+        if kind == 'rec-interrupted':   # a run cut short must be flagged incomplete whatever ran before
+            r = P.record({'steps': [O1, A], 'end': 'intr'}, env=env)
+            return self._rec_summary(r)
+        if kind == 'rec-raise-flex':    # a serializable instance of an exception type is recorded as the exception itself
+            r = P.record({'steps': [O1], 'end': 'raise:FlexGood'}, env=env)
+            return self._rec_summary(r)
         if kind == 'rec-K0-forced':
             r = P.record({'steps': [{'do': 'force'}, O1], 'cls': 'K0'}, env=env)
             r2 = P.record({'steps': [O1], 'cls': 'K0'}, env=env)
@@ -199,6 +206,13 @@ def fresh_probe(kind):
     return _FRESH[kind]
 
 
+def worker_init():
+    # the baselines come from a recorder in a PRISTINE process state (before any history ran in this worker), so that state
+    # kept at module / class level by the code under test cannot contaminate them
+    for k in PROBES:
+        fresh_probe(k)
+
+
 def bfs(depth_cap):
     """Explicit-state search; a state is the history reaching it, deduplicated by the canonical recorder state."""
     import collections
@@ -236,6 +250,8 @@ def bfs(depth_cap):
 
 
 def gen_cases(tier, seed):
+    for k in PROBES:   # baselines first: this process has not run any history yet (the workers are forked from it and inherit them)
+        fresh_probe(k)
     bfs(4 if tier == 'quick' else 6)
     depth = 2 if tier == 'quick' else 3
     names = list(RUNS)
